@@ -24,6 +24,17 @@ def set_sources(ctx):
                 out.append((e, f))
             elif isinstance(e.func, ast.Attribute) and e.func.attr in SET_ALGEBRA and ("set",) in r.type_of(e.func.value, f):
                 out.append((e, f))
+        elif isinstance(e, ast.BinOp) and isinstance(e.op, (ast.Sub, ast.BitOr, ast.BitAnd, ast.BitXor)):
+            # set algebra by operator; a dictionary view (d.keys() - s, d.items() & t) gives a set as well
+            def _setlike(x):
+                if isinstance(x, ast.Call) and isinstance(x.func, ast.Attribute) and x.func.attr in ("keys", "items") and not x.args:
+                    return True
+                try:
+                    return ("set",) in r.type_of(x, f)
+                except Exception:
+                    return False
+            if _setlike(e.left) or _setlike(e.right):
+                out.append((e, f))
     return out
 
 
